@@ -550,18 +550,75 @@ class AtInstantCall(AtInstantGet):
 NODE = "openfisca_core.parameters.parameter_node.ParameterNode"
 
 
+def dict_of6(pairs):
+    from pyvc.interp import hkey
+    d = DictVal()
+    for k, v in pairs:
+        d.items[hkey(k)] = v
+        d.keyvals[hkey(k)] = k
+    return d
+
+
 class NodeGetAtInstant(Contract):
-    """call-site contract: a group evaluated at a date is a (non-None) group view"""
+    """a group evaluated at a date is a group view built from the group as it is at the time of the call"""
     name = f"{NODE}._get_at_instant"
-    prop = ()
+    prop = ("C06",)
+    top_level = True
+    cases = ("first-read", "read-again-after-a-member-was-updated")
+    descr = ("evaluating a group at a date builds its view from the group's current members every time - also when the same date was "
+             "read before and a member's history has been replaced since (Parameter.update rebinds values_list), so that a read "
+             "after an update shows the update")
+
+    def setup(self, I, ctx, case):
+        from .c18_engine import rec
+        h = History(I, ctx)
+        member = mk_parameter(I, SymList(h.seq), name="group.member")
+        node = Obj(I.resolve_qualified(NODE), {"name": "group", "children": dict_of6([("member", member)]), "member": member,
+                                              "metadata": DictVal(), "description": None, "documentation": None, "file_path": None}, label="group")
+        inst = IsoStr(key=ctx.fresh_int("date_key"))
+        a = {"self": node, "instant": inst, "__member": member, "__case": case}
+        if case != "first-read":
+            # history: the same date read once, then the member's history replaced (what Parameter.update does)
+            f, _ = self.target(I)
+            ctx.depth += 1
+            saved = dict(I.contracts)
+            try:
+                I.contracts[NODE_AT + ".__init__"] = rec(NODE_AT + ".__init__", "view_init", [("return", None)])
+                a["__earlier"] = I.inline_call(ctx, f, [], {"self": node, "instant": inst})
+            finally:
+                I.contracts = saved
+                ctx.depth -= 1
+            h2 = History(I, ctx)
+            member.fields["values_list"] = SymList(h2.seq)
+        return a
+
+    @staticmethod
+    def local_contracts():
+        from .c18_engine import rec
+        return {NODE_AT + ".__init__": rec(NODE_AT + ".__init__", "view_init", [("return", None)])}
+
+    def post(self, I, ctx, a, out, old):
+        from .c18_engine import log_of
+        if "__case" not in a:
+            return []            # used as a call-site contract
+        inits = log_of(ctx, "view_init")
+        want = 1 if a["__case"] == "first-read" else 2
+        if out[0] != "return" or not isinstance(out[1], Obj):
+            return [("returns-a-view", False)]
+        res = [("a-view-is-built-by-this-call", len(inits) == want)]
+        if len(inits) != want:
+            return res
+        c = inits[-1]["args"]
+        res += [("built-from-this-group-at-this-date", c.get("node") is a["self"] and c.get("instant_str") is a["instant"]),
+                ("the-view-built-by-this-call-is-returned", out[1] is c.get("self"))]
+        if a["__case"] != "first-read":
+            res.append(("not-the-view-built-before-the-update", out[1] is not a["__earlier"]))
+        return res
 
     def outcomes(self, I, ctx, a, old):
         cls = I.resolve_qualified(NODE_AT)
         return ("return", Obj(cls, {"_name": a["self"].fields.get("name"), "_instant_str": a["instant"], "_children": DictVal(),
                                     "__of": a["self"]}))
-
-    def post(self, I, ctx, a, out, old):
-        return []
 
 
 class NodeAtInstantInit(Contract):
